@@ -178,14 +178,29 @@ macro_rules! __dyn_collect {
         $crate::__dyn_collect!(@split [] [dyn] $($rest)+);
     };
     // Split the remaining tokens into the trait object type and an optional trailing where clause.
+    //
+    // Neither part may contain a `{ ... }` group: it would end the header of the generated
+    // `unsafe impl` early and let the caller supply the body of that impl.
     (@split [$($params:tt),*] [$($trait:tt)+] where $($bounds:tt)+) => {
-        $crate::__dyn_collect!(@emit [$($params),*] [$($trait)+] [$($bounds)+]);
+        $crate::__dyn_collect!(@bounds [$($params),*] [$($trait)+] [] $($bounds)+);
+    };
+    (@split [$($params:tt),*] [$($trait:tt)+] { $($block:tt)* } $($rest:tt)*) => {
+        compile_error!("`dyn_collect!` takes a trait object type and an optional where clause, not a `{ ... }` block");
     };
     (@split [$($params:tt),*] [$($trait:tt)+] $next:tt $($rest:tt)*) => {
         $crate::__dyn_collect!(@split [$($params),*] [$($trait)+ $next] $($rest)*);
     };
     (@split [$($params:tt),*] [$($trait:tt)+]) => {
         $crate::__dyn_collect!(@emit [$($params),*] [$($trait)+] []);
+    };
+    (@bounds [$($params:tt),*] [$($trait:tt)+] [$($bounds:tt)*] { $($block:tt)* } $($rest:tt)*) => {
+        compile_error!("`dyn_collect!` takes a trait object type and an optional where clause, not a `{ ... }` block");
+    };
+    (@bounds [$($params:tt),*] [$($trait:tt)+] [$($bounds:tt)*] $next:tt $($rest:tt)*) => {
+        $crate::__dyn_collect!(@bounds [$($params),*] [$($trait)+] [$($bounds)* $next] $($rest)*);
+    };
+    (@bounds [$($params:tt),*] [$($trait:tt)+] [$($bounds:tt)*]) => {
+        $crate::__dyn_collect!(@emit [$($params),*] [$($trait)+] [$($bounds)*]);
     };
     (@emit [$($params:tt),*] [$($trait:tt)+] [$($bounds:tt)*]) => {
         unsafe impl<'gc, $($params),*> $crate::Collect<'gc> for $($trait)+
